@@ -65,4 +65,52 @@ def proxGradStep [LE α] (l1 : Vec α) (γ : α) (x g lb ub : Vec α) : α × Ve
     (norm1 (vmul xh l1), xh, r.map (·.1))
 
 end
+
+/-! ### `L1NormComplex::prox` and the post-SVD part of `NuclearNorm::prox` -/
+section
+variable {α : Type} [Add α] [Sub α] [Mul α] [Div α] [Neg α] [LT α] [LE α] [DecidableLT α]
+  [DecidableLE α] [BEq α] [RealLike α] [OfNat α 0] [OfNat α 1]
+
+/-- The real-matrix overload of `L1NormComplex::prox` reinterprets a real vector of even length
+    as complex numbers: consecutive (re, im) pairs (`start_lifetime_as_array<cplx_t>`). -/
+def toCVec : Vec α → CVec α
+  | a :: b :: r => (a, b) :: toCVec r
+  | _ => []
+
+def ofCVec (v : CVec α) : Vec α := v.flatMap fun z => [z.1, z.2]
+
+/-- `L1NormComplex<Conf, real_t>::prox`: `(out, returned value)`; `λ == 0` is the identity. -/
+def cplxL1ProxScalarW (lam γ : α) (v : CVec α) : CVec α × α :=
+  if lam == 0 then (v, 0)
+  else
+    let out := v.map fun z => Gen.cplxSoftScalarW γ lam z.1 z.2
+    (out, Gen.cplxL1ValueScalarW lam out)
+
+/-- `L1NormComplex<Conf, vec>::prox`: an empty weight vector is replaced by all ones. -/
+def cplxL1ProxVectorW (lam : Vec α) (γ : α) (v : CVec α) : CVec α × α :=
+  let lam := if lam.length == 0 then v.map (fun _ => (1 : α)) else lam
+  let out := (List.range v.length).map fun i =>
+    let z := v.getD i (0, 0)
+    Gen.cplxSoftVectorW γ (vget lam i) z.1 z.2
+  (out, Gen.cplxL1ValueVectorW lam out)
+
+/-- `NuclearNorm::prox` after `svd.compute`: given the singular values the SVD oracle returned,
+    the thresholded singular values, the returned value and the rank used for the reconstruction
+    `U(:, 0:rank) · diag(sv(0:rank)) · V(:, 0:rank)ᵀ`.  `none` = the `λ == 0` early exit
+    (`out = in`, value 0, no SVD). -/
+def nuclearPost (lam γ : α) (σ : Vec α) : Option (Vec α × α × Nat) :=
+  if lam == 0 then none
+  else
+    let sv := σ.map (Gen.nucThreshold lam γ)
+    some (sv, Gen.nucValue lam sv, Gen.nucRank sv)
+
+/-- The reconstruction `out = U(:, 0:rank) · diag(sv(0:rank)) · V(:, 0:rank)ᵀ` (all matrices
+    column-major; `U` is rows × k, `V` is cols × k).  Evaluation order of Eigen's lazy
+    coefficient-based product (used below its GEMM threshold): `(U(i,k)·sv_k)·V(j,k)` summed
+    left to right from the first term; an empty sum is 0. -/
+def nuclearReconstruct (rows cols rank : Nat) (sv U V : Vec α) : Vec α :=
+  (List.range cols).flatMap fun j => (List.range rows).map fun i =>
+    vsum ((List.range rank).map fun k => (vget U (i + k * rows) * vget sv k) * vget V (j + k * cols))
+
+end
 end Alpaqa.C15
